@@ -15,6 +15,7 @@ import (
 	"sort"
 	"strconv"
 	"strings"
+	"sync"
 	"testing"
 
 	"github.com/quickfixgo/quickfix"
@@ -27,7 +28,7 @@ import (
 	"verif/vk"
 )
 
-const c13Rule = "(a) rapid: free group templates (depth<=3, 1-6 members, optional members absent, 0-4 entries) placed first/middle/last among body tags, written with SetGroup+build (a quarter of them set a first time with another population, optionally serialised, then replaced), parsed without dictionary and with a dictionary written for the template (transport dictionary: none / the same / one that lists further header fields); (b) enumeration of (dictionary, message, group path) over all shipped dictionaries, 3 population variants x {API-written, spec-order wire} x {with defining dictionary, without}; non-trivial = >=2 entries or a nested group, and >=1 body field after the group; distinct = distinct message bytes"
+const c13Rule = "(a) rapid: free group templates (depth<=3, 1-6 members, optional members absent, 0-4 entries) placed first/middle/last among body tags, written with SetGroup+build (a quarter of them set a first time with another population, optionally serialised, then replaced), parsed without dictionary and with a dictionary written for the template (transport dictionary: none / the same / one that lists further header fields); (b) enumeration of (dictionary, message, group path) over all shipped dictionaries, 3 population variants x {API-written, spec-order wire, wire in a generated body order} x {with defining dictionary, without}, the dictionary object having parsed a sibling message (another message type with a group under the same tag) first; non-trivial = >=2 entries or a nested group, and >=1 body field after the group; distinct = distinct message bytes"
 
 func c13() *stats.Collector {
 	c := stats.Get("C13")
@@ -392,6 +393,60 @@ func allPairs(t fataler) []c13pair {
 	return out
 }
 
+// c13Siblings: for a dictionary and a top-level group tag, the pairs of other messages that define a
+// group under the same tag (the same NumInGroup field used by several message types, usually with
+// different members): a session parses all of them through one dictionary object.
+var (
+	c13SibOnce sync.Once
+	c13Sib     map[string][]c13pair
+)
+
+func c13Siblings(t fataler, pr c13pair) []c13pair {
+	c13SibOnce.Do(func() {
+		c13Sib = map[string][]c13pair{}
+		for _, p := range allPairs(t) {
+			if len(p.gp.Path) == 1 {
+				k := p.dict + "/" + strconv.Itoa(p.gp.Path[0])
+				c13Sib[k] = append(c13Sib[k], p)
+			}
+		}
+	})
+	var out []c13pair
+	for _, p := range c13Sib[pr.dict+"/"+strconv.Itoa(pr.gp.Path[0])] {
+		if p.gp.Msg.MsgType != pr.gp.Msg.MsgType {
+			out = append(out, p)
+		}
+	}
+	return out
+}
+
+// c13Generate populates the message of a pair (the group path forced present) from the spec tree.
+func c13Generate(t fataler, pr c13pair, variant int, seed int64, extraForce map[int]bool) (items []*specxml.Item, head []fixwire.Field, begin string, transport *datadictionary.DataDictionary) {
+	d := dicts(t)
+	dp := d[pr.dict]
+	members, err := dp.spec.Expand(pr.gp.Msg.Members, true)
+	if err != nil {
+		t.Fatalf("%v", err)
+	}
+	force := map[int]bool{}
+	for _, tg := range pr.gp.Path {
+		force[tg] = true
+	}
+	for tg := range extraForce {
+		force[tg] = true
+	}
+	ch := randChooser{rand.New(rand.NewSource(seed))}
+	opts := specxml.GenOpts{OptionalOneIn: []int{3, 2, 6}[variant%3], MaxEntries: 3, MaxDepth: 4, ForceTags: force}
+	items = dp.spec.GenMembers(ch, members, opts, 0, false)
+	begin = dp.spec.BeginString()
+	if strings.HasPrefix(pr.dict, "FIX50") {
+		transport = d["FIXT11"].dd
+		begin = "FIXT.1.1"
+	}
+	head = []fixwire.Field{fixwire.F(35, pr.gp.Msg.MsgType), fixwire.F(49, "S"), fixwire.F(56, "T"), fixwire.F(34, "7"), fixwire.F(52, "20240102-03:04:05")}
+	return
+}
+
 func qfGroupFromItem(it *specxml.Item) *quickfix.RepeatingGroup {
 	rg := quickfix.NewRepeatingGroup(quickfix.Tag(it.Tag), qfTemplate(it.Def.Members))
 	for _, e := range it.Entries {
@@ -435,24 +490,24 @@ func checkDictGroup(t fataler, pr c13pair, variant int, seed int64) {
 	c := c13()
 	d := dicts(t)
 	dp := d[pr.dict]
-	members, err := dp.spec.Expand(pr.gp.Msg.Members, true)
-	if err != nil {
-		t.Fatalf("%v", err)
+	// tags that are members of the group under the same tag in another message type: when this
+	// message has one of them as a plain body field, it is the interesting neighbour for the group
+	siblings := c13Siblings(t, pr)
+	foreignMembers := map[int]bool{}
+	for _, sib := range siblings {
+		specxml.DefTags(sib.gp.Def, foreignMembers)
 	}
-	force := map[int]bool{}
-	for _, tg := range pr.gp.Path {
-		force[tg] = true
+	own := map[int]bool{}
+	specxml.DefTags(pr.gp.Def, own)
+	extra := map[int]bool{}
+	if topMembers, err := dp.spec.Expand(pr.gp.Msg.Members, true); err == nil {
+		for _, m := range topMembers {
+			if !m.IsGroup && foreignMembers[m.Tag] && !own[m.Tag] {
+				extra[m.Tag] = true
+			}
+		}
 	}
-	ch := randChooser{rand.New(rand.NewSource(seed))}
-	opts := specxml.GenOpts{OptionalOneIn: []int{3, 2, 6}[variant%3], MaxEntries: 3, MaxDepth: 4, ForceTags: force}
-	items := dp.spec.GenMembers(ch, members, opts, 0, false)
-	var transport *datadictionary.DataDictionary
-	begin := dp.spec.BeginString()
-	if strings.HasPrefix(pr.dict, "FIX50") {
-		transport = d["FIXT11"].dd
-		begin = "FIXT.1.1"
-	}
-	head := []fixwire.Field{fixwire.F(35, pr.gp.Msg.MsgType), fixwire.F(49, "S"), fixwire.F(56, "T"), fixwire.F(34, "7"), fixwire.F(52, "20240102-03:04:05")}
+	items, head, begin, transport := c13Generate(t, pr, variant, seed, extra)
 	// two writers: spec-order wire (fixwire) and the quickfix API
 	rest := append([]fixwire.Field{}, head...)
 	for _, f := range specxml.Flatten(items) {
@@ -476,11 +531,70 @@ func checkDictGroup(t fataler, pr c13pair, variant int, seed int64) {
 		}
 	}
 	apiBytes := []byte(api.String())
+	// third writer: body order is free in FIX - the top-level items in a generated order, with a
+	// field that is a group member in a sibling message (if this message has one) right behind the group
+	shuffled := append([]*specxml.Item(nil), items...)
+	rnd := rand.New(rand.NewSource(seed ^ 0x5bd1e995))
+	rnd.Shuffle(len(shuffled), func(i, j int) { shuffled[i], shuffled[j] = shuffled[j], shuffled[i] })
+	if len(extra) > 0 {
+		var neighbour *specxml.Item
+		var rest2 []*specxml.Item
+		for _, it := range shuffled {
+			if neighbour == nil && !it.IsGroup && extra[it.Tag] {
+				neighbour = it
+				continue
+			}
+			rest2 = append(rest2, it)
+		}
+		if neighbour != nil {
+			shuffled = nil
+			for _, it := range rest2 {
+				shuffled = append(shuffled, it)
+				if it.IsGroup && it.Tag == pr.gp.Path[0] {
+					shuffled = append(shuffled, neighbour)
+				}
+			}
+			c.Class("dict:field-behind-the-group-is-a-member-of-it-in-another-message")
+		}
+	}
+	restS := append([]fixwire.Field{}, head...)
+	for _, f := range specxml.Flatten(shuffled) {
+		restS = append(restS, fixwire.F(f.Tag, f.Value))
+	}
+	wireShuffled := fixwire.Build(begin, restS)
+	order := map[string][]*specxml.Item{"wire": items, "wire-shuffled": shuffled}
+	// the dictionary object has already been used for another message type that has a group under the
+	// same tag (a session parses every message type through one dictionary object)
+	if len(siblings) > 0 {
+		sib := siblings[int(uint64(seed)%uint64(len(siblings)))]
+		// (with every nested group of that sibling group present, so that the parser has seen them)
+		nestedTags := map[int]bool{}
+		var walk func(m *specxml.Member)
+		walk = func(m *specxml.Member) {
+			for _, x := range m.Members {
+				if x.IsGroup {
+					nestedTags[x.Tag] = true
+					walk(x)
+				}
+			}
+		}
+		walk(sib.gp.Def)
+		sItems, sHead, sBegin, sTransport := c13Generate(t, sib, variant, seed+1, nestedTags)
+		sRest := append([]fixwire.Field{}, sHead...)
+		for _, f := range specxml.Flatten(sItems) {
+			sRest = append(sRest, fixwire.F(f.Tag, f.Value))
+		}
+		warm := quickfix.NewMessage()
+		_ = catch(func() {
+			_ = quickfix.ParseMessageWithDataDictionary(warm, bytes.NewBuffer(fixwire.Build(sBegin, sRest)), sTransport, dp.dd)
+		})
+		c.Class("dict:dictionary-object-used-for-a-sibling-message-first")
+	}
 
 	for _, w := range []struct {
 		name string
 		raw  []byte
-	}{{"wire", wire}, {"api", apiBytes}} {
+	}{{"wire", wire}, {"api", apiBytes}, {"wire-shuffled", wireShuffled}} {
 		for _, withDict := range []bool{true, false} {
 			c.Eval()
 			mode := w.name + "/nodict"
@@ -521,11 +635,20 @@ func checkDictGroup(t fataler, pr c13pair, variant int, seed int64) {
 				tagsInTree(it, inTree)
 				// fields following the group (in the generated order for the wire variant; by tag for the API variant)
 				following := 0
-				for j, other := range items {
+				seq, pos := items, idx
+				if o, ok := order[w.name]; ok {
+					seq = o
+					for k, x := range seq {
+						if x == it {
+							pos = k
+						}
+					}
+				}
+				for j, other := range seq {
 					if other.IsGroup {
 						continue
 					}
-					isAfter := j > idx
+					isAfter := j > pos
 					if w.name == "api" {
 						isAfter = other.Tag > it.Tag
 					}
@@ -577,10 +700,7 @@ func TestC13_DictGroups(t *testing.T) {
 	c := c13()
 	variants := 3
 	stride := 1
-	if !vk.Thorough() {
-		// quick: a seed-dependent sample of about 3000 of the pairs, one variant each
-		stride = len(pairs)/3000 + 1
-	}
+	// (both tiers: every pair, all three population variants; the populations depend on VERIF_SEED)
 	offset := int(vk.Seed() % int64(stride))
 	n := 0
 	for i, pr := range pairs {
@@ -591,9 +711,6 @@ func TestC13_DictGroups(t *testing.T) {
 			continue
 		}
 		for v := 0; v < variants; v++ {
-			if !vk.Thorough() && v != int((vk.Seed()+int64(i))%3) {
-				continue
-			}
 			seed := vk.Seed()*1000003 + int64(i)*31 + int64(v)
 			vk.Guard(func() { checkDictGroup(t, pr, v, seed) })
 			n++
@@ -601,7 +718,7 @@ func TestC13_DictGroups(t *testing.T) {
 	}
 	c.ClassN("dict:pairs-total", 0)
 	c.SetExtra("dictionary_group_pairs_total", len(pairs))
-	c.SetExhaustive(fmt.Sprintf("(dictionary, message, group path) pairs: %d in all shipped dictionaries, 3 population variants each", len(pairs)), vk.Thorough())
+	c.SetExhaustive(fmt.Sprintf("(dictionary, message, group path) pairs: %d in all shipped dictionaries, 3 population variants each", len(pairs)), true)
 }
 
 // TestReplay_C13_Pair re-runs one saved (dictionary, message type, path, variant, seed).
